@@ -85,6 +85,57 @@ def first_byte(t):
     return None
 
 
+FLOAT_MASKS = {4: (0x7F800000, 0x007FFFFF, 0x7FFFFFFF), 8: (0x7FF0000000000000, 0x000FFFFFFFFFFFFF, 0x7FFFFFFFFFFFFFFF)}
+
+
+def nan_status(st, n):
+    """Is the float parameter known to be NaN / known not to be NaN on this path?  Recognises isnan() (fcmp uno) and the
+    exact bit-level tests; returns True / False / None (not tested) / 'inexact' (a bit test that is not equivalent to isnan)."""
+    V = ("arg", 0)
+    for (t, truth, _) in st.facts:
+        if t[0] == "fcmp" and t[1] == "uno":
+            return truth
+    if n not in FLOAT_MASKS:
+        return None
+    EXP, MANT, ABS = FLOAT_MASKS[n]
+    B = ("reinterpret", "i%d" % (8 * n), V)
+
+    def masked(t):
+        if isinstance(t, tuple) and t[0] == "op" and t[1] == "and":
+            x, y = t[3], t[4]
+            if x == B and y[0] == "c":
+                return y[1]
+            if y == B and x[0] == "c":
+                return x[1]
+        return None
+    exp_all = mant_zero = None
+    inexact = False
+    for (t, truth, _) in st.facts:
+        if t[0] != "icmp":
+            continue
+        m = masked(t[2])
+        if m is None:
+            continue
+        c = t[3][1] if t[3][0] == "c" else None
+        if t[1] == "eq" and m == EXP and c == EXP:
+            exp_all = truth
+        elif t[1] == "eq" and m == MANT and c == 0:
+            mant_zero = truth
+        elif t[1] == "ugt" and m == ABS and c == EXP:
+            return truth
+        elif t[1] == "ule" and m == ABS and c == EXP:
+            return not truth
+        else:
+            inexact = True
+    if exp_all is False:
+        return False
+    if exp_all is True and mant_zero is not None:
+        return not mant_zero
+    if inexact or exp_all is not None or mant_zero is not None:
+        return "inexact"
+    return None
+
+
 def typemax_of(prog, fname, vi):
     f = prog.fn(fname)
     t = f.params[vi]["type"]
@@ -236,8 +287,12 @@ def check_encoder(prog, eff, fname):
         nan_paths = 0
         for d in succ:
             st = d["path"].st
-            isnan = any(t[0] == "fcmp" and t[1] == "uno" and truth for (t, truth, _) in st.facts)
-            notnan = any(t[0] == "fcmp" and t[1] == "uno" and not truth for (t, truth, _) in st.facts)
+            ns = nan_status(st, n)
+            isnan = ns is True
+            notnan = ns is False
+            if ns == "inexact":
+                R("nan", "NaN test is exact", False, "the path tests the bit pattern in a way that is not equivalent to isnan(): some NaN "
+                  "payloads escape canonicalisation (or some numbers are treated as NaN)")
             inst = "NaN" if isnan else "value"
             common(d, 1 + n, inst)
             fb = first_byte(d["stores"].get(0))
